@@ -27,6 +27,7 @@ func init() {
 			Assumptions: e1Assumptions,
 			Also:        also[p],
 			Enum:        enums[p],
+			MSpecs:      mspecs[p],
 		})
 	}
 }
@@ -42,6 +43,11 @@ var also = map[string][]string{
 var enums = map[string]func(tier string, deadline time.Time) *run.EnumResult{
 	"C05": enumCanCall,
 	"C19": enumThrottle,
+}
+
+var mspecs = map[string]func(tier string) []*mc.MSpec{
+	"C08": mspecsC08,
+	"C09": mspecsC09,
 }
 
 // allScenarios is the union of all E1 scenario families.
